@@ -4,6 +4,9 @@ HEX="0123456789ABCDEF"
 def gen(pattern, rnd, maxrep=4, mode="rand"):
     digits = {"lo": "lo", "hi": "hi", "rand-lo": "lo", "rand-hi": "hi"}.get(mode)
     struct = mode if mode in ("lo", "hi") else None
+    alt = None
+    if mode.startswith("min"):      # "min<k>-hi" / "min<k>-lo": every repeat at its minimum (at least once), the k-th alternative of every branch, extreme digits
+        alt, digits, struct = int(mode[3:mode.index("-")]), mode[mode.index("-") + 1:], "min"
     def pick(items):
         if digits == "lo": return items[0]
         if digits == "hi": return items[-1]
@@ -24,10 +27,10 @@ def gen(pattern, rnd, maxrep=4, mode="rand"):
                     else: raise ValueError(o)
                 out.append(pick(items))
             elif op=="SUBPATTERN": out.append(g(av[3]))
-            elif op=="BRANCH": out.append(g(av[1][0] if struct=="lo" else av[1][-1] if struct=="hi" else rnd.choice(av[1])))
+            elif op=="BRANCH": out.append(g(av[1][0] if struct=="lo" else av[1][-1] if struct=="hi" else av[1][alt % len(av[1])] if alt is not None else rnd.choice(av[1])))
             elif op in("MAX_REPEAT","MIN_REPEAT"):
                 lo,hi,sub=av; hi=min(int(hi),lo+maxrep) if str(hi)!="MAXREPEAT" else lo+maxrep
-                out.append("".join(g(sub) for _ in range(lo if struct=="lo" else hi if struct=="hi" else rnd.randint(lo,hi))))
+                out.append("".join(g(sub) for _ in range(lo if struct=="lo" else hi if struct=="hi" else max(lo, 1) if struct=="min" and hi >= 1 and lo <= 1 and str(sub[0][0]) != "IN" else lo if struct=="min" else rnd.randint(lo,hi))))
             elif op=="AT": pass
             else: raise ValueError(op)
         return "".join(out)
